@@ -216,15 +216,28 @@ def check_idmap(prog: Program, res: Result, fi) -> None:
         for what, meth, nargs in (("atoms", "add_atom", 1),
                                   ("bonds", "add_bond", 2)):
             inst = f"{fn.short}: {what} added through id_atom_map"
+            # the graph under construction: the returned local
+            gnames = {norm(r_.value) for r_ in ast.walk(fn.node)
+                      if isinstance(r_, ast.Return)
+                      and isinstance(r_.value, ast.Name)} or {"graph"}
             calls = [c for c in ast.walk(fn.node) if isinstance(c, ast.Call)
-                     and norm(c.func) == f"graph.{meth}"]
+                     and isinstance(c.func, ast.Attribute)
+                     and c.func.attr == meth
+                     and norm(c.func.value) in gnames]
             if not calls:
                 res.unrecognised("R-IDMAP", inst, fn.loc(),
                                  f"no graph.{meth}(...) call")
                 continue
+            # id map: the dictionary built from GetIdx() keys
+            mapnames = {norm(n_.targets[0]) for n_ in ast.walk(fn.node)
+                        if isinstance(n_, ast.Assign)
+                        and isinstance(n_.targets[0], ast.Name)
+                        and "GetIdx()" in norm(n_.value, 300)
+                        and isinstance(n_.value, (ast.DictComp, ast.IfExp))} \
+                | {"id_atom_map"}
             rawargs = [norm(a) for c in calls for a in c.args[:nargs]
                        if not (isinstance(a, ast.Subscript)
-                               and norm(a.value) == "id_atom_map")]
+                               and norm(a.value) in mapnames)]
             if rawargs:
                 res.bad("R-IDMAP", f"{fn.short}: {what} {rawargs}",
                         fn.loc(calls[0]), f"{inst}: graph.{meth} receives "
